@@ -17,7 +17,7 @@ for sid in sorted(os.listdir(os.path.join(snap, "seeded"))):
     old = json.load(open(om))
     if new.get("when") == old.get("when"):
         continue
-    def artifact(r): return any("lean-build-failed" in e.get("key", "") for e in r.get("examples", []))
+    def artifact(r): return r.get("with_failing_input", 0) == 0 and any("lean-build-failed" in e.get("key", "") for e in r.get("examples", []))
     for c, r in new.get("checks", {}).items():
         if not artifact(r):
             old.setdefault("checks", {})[c] = r
